@@ -34,6 +34,7 @@ def dstep (s : DState) (toks : List String) : DState × List String :=
     match b? a, b? n, b? d with
     | some a, some n, some d => ({ s with cfg := ⟨a, n, d⟩ }, ["ok"])
     | _, _, _ => (s, ["bad-op"])
+  | "args" :: flags => ({ s with cfg := parseArgs s.cfg flags }, ["ok"])
   | ["conn", id, rev] =>
     match id.toNat?, b? rev with
     | some id, some rev =>
